@@ -15,7 +15,7 @@ import subprocess
 from vlib import core
 
 NPROC = 8
-NINITS = 12         # Len(FsTreeGen!Inits), checked against what TLC prints
+NINITS = 14         # Len(FsTreeGen!Inits), checked against what TLC prints
 
 
 # ------------------------------------------------------------------------------------------
